@@ -51,7 +51,7 @@ def corrupt_event(ev, rnd):
 def run(ctx):
     q = ctx.quick
     ctx.rule = ('a case is one history of record operations (read/assign $0, assign $k and NF incl. fractional, string, '
-                'negative and beyond-limit spellings, change FS/OFS/OUTPUTMODE, read $k/NF, $k++) exported by TLC from '
+                'negative and beyond-limit spellings, change FS/OFS/OUTPUTMODE, read $k/NF, $k++, $k += d, sub/gsub on $k and $0, getline $k) exported by TLC from '
                 'Gen_Record, or one 10-40 step random history recorded from the real interpreter; distinct by content; '
                 'non-trivial when it contains both a record-setting and a record-modifying operation')
     ctx.assumptions += [
@@ -64,6 +64,9 @@ def run(ctx):
     # 1. model: the lazy record refines the abstract one (exhaustive to Depth)
     mc = ctx.cfg('MC_Record', constants={'Depth': 4 if q else 5})
     ctx.tlc('MC_Record', mc, timeout=1500, heap='8g')
+    # ... and with $k += d, sub/gsub on a field and getline $k in the menu (one step shallower: the menu is twice as large)
+    mc2 = ctx.cfg('MC_Record', name='MC_Record_sub', constants={'Depth': 3 if q else 4, 'WithSub': 'TRUE'})
+    ctx.tlc('MC_Record', mc2, timeout=2400, heap='8g')
     # 2. spec -> code: exported histories replayed on the real interpreter
     if q:
         gen = ctx.cfg('Gen_Record', constants={'Depth': 3, 'Rich': 'FALSE'})
